@@ -67,7 +67,7 @@ var containers = []containerKind{
 			d, _ := gen.BuildJPEG(segs, true)
 			return d
 		}},
-	{name: "PNG", imageType: "image/png", nSurround: 4,
+	{name: "PNG", imageType: "image/png", nSurround: 6,
 		entries: []entryPoint{{"imagemeta.DecodePng", imagemeta.DecodePng}},
 		build: func(rec *gen.Rec, lay gen.Layout, bo binary.ByteOrder, s int) *gen.Doc {
 			t := gen.EncodeTIFF(rec, lay, bo, gen.AllDirs)
@@ -80,6 +80,12 @@ var containers = []containerKind{
 				after = []gen.Chunk{textChunk()}
 			case 3:
 				after = []gen.Chunk{{Type: "tIME", Data: []byte{7, 0xe7, 6, 15, 12, 34, 56}}}
+			case 4: // eXIf after the image data
+				d, _ := gen.BuildPNGLate(nil, t, nil)
+				return d
+			case 5:
+				d, _ := gen.BuildPNGLate([]gen.Chunk{{Type: "gAMA", Data: []byte{0, 0, 0xb1, 0x8f}}}, t, []gen.Chunk{textChunk()})
+				return d
 			}
 			d, _ := gen.BuildPNG(before, t, after)
 			return d
